@@ -243,6 +243,8 @@ type Path struct {
 	eventSeq     int
 	preempt      int
 	turnSched    bool
+	sigSched     bool
+	turnBudget   int
 	clockVirtual bool
 	clock0       *smt.T
 	clockHorizon *smt.T
